@@ -154,6 +154,10 @@ class CTLWorld(object):
         def RLock():
           return eng.RLock()
 
+        @staticmethod
+        def Lock():
+          return eng.Lock()
+
         def __getattr__(_s, n):
           return getattr(_T, n)
       O1.threading = _NS()
